@@ -20,6 +20,7 @@ EXPLANATION = (
 def run(e, R, tier):
     R.run_rules(e, [
         P.r_spawn_fresh,
+        P.r_env_overlay_kept,
         P.r_init_first,
         P.r_args,
         T.r_spawn_site,
